@@ -51,6 +51,20 @@ def histories(tier, rng):
             if rid == 'absent':
                 d[3].remove(d[3].find('roID'))
             yield {'ro': ro, 'msgs': [to_text(d), to_text(ro_delete(31)), to_text(story_append(32, [rich_story(rng, 'Z', 1)])), to_text(d)]}
+    # the envelope's own fields after the message element, and content that holds elements named like them (messageID,
+    # mosID, roID ... inside a payload): the envelope keeps its message ID whatever is merged
+    from xml.etree import ElementTree as ET_
+    for layout in ('decoys', 'plain'):
+        root = gens.make_ro(['A', 'B'], layout=layout, message_id=1000)
+        head = [c for c in root if c.tag in ('mosID', 'ncsID', 'messageID')]
+        for c in head:
+            root.remove(c)
+        for c in head:
+            root.append(c)
+        carrier = gens.new_story('HD')
+        carrier.find('item').append(gens.decoy_block())
+        yield {'ro': to_text(root), 'msgs': [to_text(story_append(31, [carrier])), to_text(item_insert(32, 'HD', None, [gens.new_item('hd2')])),
+                                             to_text(metadata_replace(33, [E('roSlug', text='after'), E('messageID', text='88')]))]}
     n = 60 if tier == 'quick' else 600
     for h in range(n):
         sids = gens.STORY_IDS[:rng.randrange(1, 4)]
@@ -170,6 +184,14 @@ class Check:
                             'cr': False, 'impl': impl.ename(e), 'expected': 'a RunningOrder'})
                 continue
             orig_mid = safe(lambda: ro.message_id)
+            try:
+                own = impl.parse_doc(c['ro']).find('messageID')            # the envelope's own field: a direct child of the root
+                if own is not None and own.text and own.text.strip().isdigit() and orig_mid != int(own.text):
+                    vio.append({'what': 'the running order reports message ID %r, its envelope says %s' % (orig_mid, own.text.strip()),
+                                'case': {'kind': 'hist', 'ro': c['ro'], 'msgs': []}, 'cr': False, 'impl': str(orig_mid), 'expected': own.text.strip()})
+                    continue
+            except Exception:
+                pass
             orig_roid = safe(lambda: ro.ro_id)
             had_replace = False
             for k, mt in enumerate(c['msgs']):
